@@ -141,29 +141,64 @@ def r2(cx, chk, cfg, F):
         fn = F.fns[path]
         if any(n == "samples" for n, ln in sites):
             chk.violation("C11.R2", "samples-store|" + fn["q"], "samples is written after construction", fn["span"]["file"], sites[0][1], fn["q"], None, cfg)
+    # the functions judged: every TinyLFU method that writes w itself or through TinyLFU helpers, except module-private helpers that are
+    # reached from another judged method (their stores are judged on the paths of their callers, into which they are inlined)
+    callers = {}
+    for b in F.doc["bodies"]:
+        fn = F.fns[b["path"]]
+        while fn.get("kind") == "Closure":
+            fn = F.fns[fn["parent"]]
+        for blk in b["blocks"]:
+            t = blk["t"]
+            if t["k"] == "call" and "def" in t["f"]:
+                r = t["f"].get("resolved")
+                callers.setdefault(r["def"] if r else t["f"]["def"], set()).add(fn["path"])
+    S = set(owners)
+    work = list(owners)
+    while work:
+        x = work.pop()
+        for c in callers.get(x, ()):
+            im = F.impl_of(F.fns[c])
+            if c not in S and im and im["self_head"] == T:
+                S.add(c)
+                work.append(c)
+
+    def private(fn):
+        return not fn.get("exported") and "::lfu::tinylfu)" in str(fn.get("vis"))
+    judged = [x for x in sorted(S) if not (private(F.fns[x]) and any(c in S for c in callers.get(x, ())))]
+    for path in judged:
+        fn = F.fns[path]
         for p in cx.paths(cfg, path, policy=Shallow(), tag="shallow"):
-            st = [e for e in p.events if e["ev"] == "store" and e["loc"] == ("H", SELF, ("w",)) and e["fn"] == path]
+            facts = cond_facts(p)
+            st = [(i, e) for i, e in enumerate(p.events) if e["ev"] == "store" and e["loc"] == ("H", SELF, ("w",))]
             if not st:
                 continue
-            v = st[-1]["val"]
-            if v == ("bin", "Add", W0, ("const", "usize", "1")) and len(st) == 1:
-                kinds.setdefault(path, set()).add("inc")
-                # reset iff w+1 >= samples
-                t = truth_of(cond_facts(p), "Ge", v, ("load", ("H", SELF, ("samples",)), 0))
-                res = outer_enters(p, lambda e: "TinyLFU" in e["q"] and e["q"].split("::")[-1] in ("reset", "clear"))
-                if t is None or bool(res) != t:
-                    chk.violation("C11.R2", "try_reset|schedule|" + fn["q"], "%s increments w but does not reset exactly when w + 1 >= samples" % fn["q"], fn["span"]["file"], st[0].get("ln"), fn["q"], None, cfg)
-            elif v == ("const", "usize", "0"):
-                dk = [e for e in calls(p, "Bloom::clear") if field_ref(e["args"][0], "doorkeeper") and e["fn"] == path]
-                cr = [e for e in p.events if e["ev"] == "call" and e["fn"] == path and (e["q"] or "").split("::")[-1] in ("reset", "clear") and "CountMinSketch" in e["q"]]
-                if len(dk) == 1 and len(cr) == 1:
-                    kinds.setdefault(path, set()).add("zero+" + cr[0]["q"].split("::")[-1])
+            cur = W0
+            zeroed = False
+            for k, (i, e) in enumerate(st):
+                v = e["val"]
+                nxt = st[k + 1][0] if k + 1 < len(st) else len(p.events)
+                prv = st[k - 1][0] if k else 0
+                if v == ("bin", "Add", cur, ("const", "usize", "1")) and cur != ("const", "usize", "0"):
+                    kinds.setdefault(path, set()).add("inc")
+                    # reset iff w + 1 >= samples
+                    t = truth_of(facts, "Ge", v, ("load", ("H", SELF, ("samples",)), 0))
+                    later_zero = any(e2["val"] == ("const", "usize", "0") for _, e2 in st[k + 1:])
+                    if t is None or later_zero != t:
+                        chk.violation("C11.R2", "try_reset|schedule|" + fn["q"], "%s increments w but does not reset exactly when w + 1 >= samples" % fn["q"], fn["span"]["file"], e.get("ln"), fn["q"], None, cfg)
+                elif v == ("const", "usize", "0"):
+                    seg = p.events[prv:nxt]
+                    dk = [x for x in seg if x["ev"] == "call" and (x["q"] or "").endswith("Bloom::clear") and field_ref(x["args"][0], "doorkeeper")]
+                    cr = [x for x in seg if x["ev"] == "call" and (x["q"] or "").split("::")[-1] in ("reset", "clear") and "CountMinSketch" in (x["q"] or "")]
+                    if len(dk) == 1 and len(cr) == 1:
+                        kinds.setdefault(path, set()).add("zero+" + cr[0]["q"].split("::")[-1])
+                    else:
+                        chk.violation("C11.R2", "zero|partial|" + fn["q"], "%s sets w = 0 without clearing the doorkeeper and ageing/clearing the sketch (doorkeeper.clear x%d, sketch reset/clear x%d)" % (fn["q"], len(dk), len(cr)),
+                                      fn["span"]["file"], e.get("ln"), fn["q"], None, cfg)
                 else:
-                    chk.violation("C11.R2", "zero|partial|" + fn["q"], "%s sets w = 0 without clearing the doorkeeper and ageing/clearing the sketch (doorkeeper.clear x%d, sketch reset/clear x%d)" % (fn["q"], len(dk), len(cr)),
-                                  fn["span"]["file"], st[0].get("ln"), fn["q"], None, cfg)
-            else:
-                chk.violation("C11.R2", "w-store|" + fn["q"], "%s assigns w := %s; w may only be incremented by one (try_reset) or zeroed together with the doorkeeper and the sketch" % (fn["q"], fmt_val(v)),
-                              fn["span"]["file"], st[0].get("ln"), fn["q"], None, cfg)
+                    chk.violation("C11.R2", "w-store|" + fn["q"], "%s assigns w := %s; w may only be incremented by one (try_reset) or zeroed together with the doorkeeper and the sketch" % (fn["q"], fmt_val(v)),
+                                  fn["span"]["file"], e.get("ln"), fn["q"], None, cfg)
+                cur = v
     have = set(k for ks in kinds.values() for k in ks)
     for need in ("inc", "zero+reset", "zero+clear"):
         if need in have:
@@ -204,9 +239,19 @@ def est_expr(p, v, key, hashed):
         return "the doorkeeper is not consulted for the same hash"
     r = ("call", dk[0]["id"], dk[0]["q"])
     present = [t for c, t, e in cond_facts(p) if c == r]
-    if not present:
-        return "doorkeeper.contains does not influence the result"
     rest = {k: c for k, c in d.items() if k != ests[0]}
+    if not present:
+        # branch-free form: ctr.estimate(h) + (contains(h) as u64) / u64::from(contains(h))
+        def as_flag(k):
+            if k == r:
+                return True
+            if isinstance(k, tuple) and k[0] == "call" and (k[2] or "").split("::")[-1] in ("from", "into"):
+                ce = [e for e in p.events if e["ev"] == "call" and e.get("id") == k[1]]
+                return bool(ce) and len(ce[0]["args"]) == 1 and ce[0]["args"][0] == r
+            return False
+        if len(rest) == 1 and list(rest.values()) == [1] and as_flag(list(rest)[0]):
+            return None
+        return "doorkeeper.contains does not influence the result"
     want = {"const": 1} if present[-1] else {}
     if rest != want:
         return "expected ctr.estimate(h)%s, found %s" % (" + 1" if present[-1] else "", fmt_val(v)[:60])
@@ -325,15 +370,25 @@ def r6(cx, chk, cfg, F):
     ok = False
     bad = None
     for p in cx.paths(cfg, f["path"]):
-        st = [e for e in p.events if e["ev"] == "store" and e["loc"][0] == "H" and e["fn"] == f["path"]]
+        st = [e for e in p.events if e["ev"] == "store" and e["loc"][0] == "H"]
         if not st:
             continue
-        guards = [(c, t) for c, t, e in cond_facts(p) if isinstance(c, tuple) and c[0] == "bin" and c[1] in ("Lt", "Ge") and ("const", "u8", "15") in (c[2], c[3])]
-        g = [(c, t) for c, t in guards if (c[1] == "Lt") == t]
+        # a fact that bounds a masked nibble by 14: `n < 15` passed, `n == 15` / `n >= 15` failed, ... in either operand order
+        g = []
+        for c, t, e in cond_facts(p):
+            if not (isinstance(c, tuple) and c[0] == "bin" and c[1] in ("Lt", "Le", "Gt", "Ge", "Eq", "Ne")):
+                continue
+            for op, x, y in ((c[1], c[2], c[3]), ({"Lt": "Gt", "Gt": "Lt", "Le": "Ge", "Ge": "Le"}.get(c[1], c[1]), c[3], c[2])):
+                if not (isinstance(y, tuple) and y[0] == "const" and str(y[2]).isdigit()):
+                    continue
+                k = int(y[2])
+                o = op if t else {"Eq": "Ne", "Ne": "Eq", "Lt": "Ge", "Ge": "Lt", "Gt": "Le", "Le": "Gt"}[op]
+                if (o == "Lt" and k <= 15) or (o == "Le" and k <= 14) or (o == "Ne" and k == 15 and any(z == ("const", "u8", "15") for z in subterms(x))):
+                    g.append(((c[1], x, y), t))
         if not g:
             bad = "the counter byte is incremented on a path that does not establish v < 15 (a saturated nibble would overflow into its neighbour)"
             continue
-        v = g[0][0][2]
+        v = g[0][0][1]
         shifts = set(_IDS.sub("", fmt_val(t)) for t in subterms(v) if t[0] == "bin" and t[1] == "Shr")
         inc = st[0]["val"]
         incs = set(_IDS.sub("", fmt_val(t[3])) for t in subterms(inc) if t[0] == "bin" and t[1] == "Shl")
@@ -350,7 +405,8 @@ def r6(cx, chk, cfg, F):
     good = False
     for p in cx.paths(cfg, f["path"]):
         for e in p.events:
-            if e["ev"] == "store" and e["loc"][0] == "H" and isinstance(e["loc"][1], tuple) and e["loc"][1][0] == "iter_item":
+            # a store through the current element of the iteration over the bytes (for_each item, for-loop `next()` payload, indexed element)
+            if e["ev"] == "store" and e["loc"][0] == "H" and isinstance(e["loc"][1], tuple) and e["loc"][1][0] in ("iter_item", "proj", "call") and e["loc"][2] == ():
                 v = e["val"]
                 want_inner = ("bin", "Shr", ("load", e["loc"], 0), None)
                 if isinstance(v, tuple) and v[0] == "bin" and v[1] == "BitAnd" and v[3] == ("const", "u8", "119") and isinstance(v[2], tuple) and v[2][:2] == ("bin", "Shr") \
